@@ -76,9 +76,10 @@ class Ref:
 
 class RVec:
     """Vec<T> / array-backed slice storage / VecDeque: list of cells"""
-    __slots__ = ('cells', 'kind')
-    def __init__(self, cells=None, kind='Vec'):
+    __slots__ = ('cells', 'kind', 'text')
+    def __init__(self, cells=None, kind='Vec', text=None):
         self.cells = cells if cells is not None else []; self.kind = kind
+        self.text = text      # bytes that are the UTF-8 of a structured (partly symbolic) string keep that string here
     def __repr__(self): return '%s%r' % (self.kind, [c.v for c in self.cells])
 
 
@@ -305,6 +306,8 @@ def veq(a, b):
             if isinstance(b, Struct) and len(b.f) == 1: return veq(a, b.f[0].v)
             raise Unmodelled('eq of string and %r / %r' % (a, b))
         return str_eq(a, b)
+    if isinstance(a, Struct) and a.name == '[]' and not (isinstance(b, Struct) and b.name == '[]'): a = RVec(a.f, 'array')
+    if isinstance(b, Struct) and b.name == '[]' and not (isinstance(a, Struct) and a.name == '[]'): b = RVec(b.f, 'array')
     if isinstance(a, Struct):
         if not isinstance(b, Struct) or len(a.f) != len(b.f): raise Unmodelled('eq of %r and %r' % (a, b))
         return zand(veq(x.v, y.v) for x, y in zip(a.f, b.f))
@@ -313,6 +316,10 @@ def veq(a, b):
         if a.variant != b.variant: return False
         return zand(veq(x.v, y.v) for x, y in zip(a.f, b.f))
     if isinstance(a, (RVec, SliceRef)) or isinstance(b, (RVec, SliceRef)):
+        ta = (a.vec if isinstance(a, SliceRef) else a).text; tb = (b.vec if isinstance(b, SliceRef) else b).text
+        if ta is not None or tb is not None:
+            if ta is not None and tb is not None: return str_eq(ta, tb)
+            raise Unmodelled('comparison of text-backed bytes with plain bytes')
         ca = a.vec.cells if isinstance(a, SliceRef) else a.cells
         cb = b.vec.cells if isinstance(b, SliceRef) else b.cells
         if len(ca) != len(cb): return False
@@ -355,7 +362,7 @@ def clone(v):
     if isinstance(v, Closure): return Closure(v.span, [Cell(clone(c.v)) for c in v.f])
     if isinstance(v, Struct): return Struct(v.name, [Cell(clone(c.v)) for c in v.f])
     if isinstance(v, Enum): return Enum(v.name, v.variant, [Cell(clone(c.v)) for c in v.f])
-    if isinstance(v, RVec): return RVec([Cell(clone(c.v)) for c in v.cells], v.kind)
+    if isinstance(v, RVec): return RVec([Cell(clone(c.v)) for c in v.cells], v.kind, v.text)
     if isinstance(v, RMap):
         m = RMap(v.kind); m.items = [(clone(k), Cell(clone(c.v))) for k, c in v.items]; return m
     if isinstance(v, RSet):
